@@ -190,7 +190,7 @@ func (r *FeatureLocal) addPendingApproval(msg *api.Message) {
 	ski := msg.DeviceRemote.Ski()
 
 	newTimer := time.AfterFunc(r.writeTimeout, func() {
-		verifPoint("WriteApproval.timerFired", ski)
+		verifPoint("WriteApproval.timerFired", ski, uint64(*msg.RequestHeader.MsgCounter))
 		r.muxResponseCB.Lock()
 		delete(r.pendingWriteApprovals[ski], *msg.RequestHeader.MsgCounter)
 		r.muxResponseCB.Unlock()
@@ -220,7 +220,7 @@ func (r *FeatureLocal) ApproveOrDenyWrite(msg *api.Message, err model.ErrorType)
 	count := len(r.writeApprovalCallbacks)
 	r.muxResponseCB.Unlock()
 
-	verifPoint("ApproveOrDenyWrite.afterLookup", ski, ok)
+	verifPoint("ApproveOrDenyWrite.afterLookup", ski, uint64(*msg.RequestHeader.MsgCounter), ok)
 
 	// if there is no timer running, we are too late and error has already been sent
 	if !ok || timer == nil {
